@@ -16,7 +16,7 @@ Spec objects (independent of the code):
 MANIFEST = {
     'category': 'proof',
     'text': 'run_vectorized is verified on its real body for every batch length (loop invariant over a symbolic-length result sequence) at '
-            'arities 0-3 and every combination of input kinds (array / declared constant / scalar / 0-d array), dtype None / given / False, '
+            'arities 0-4 (arity 4: all 256 kind words in the thorough tier, 8 in the quick tier) plus four arity-5 words (two in the quick tier) and every combination of input kinds (array / declared constant / scalar / 0-d array), dtype None / given / False, '
             'meta present or not, batch_size given or not: the result has the batch length taken from the inputs, else batch_size, else 1; entry j is '
             'the uninterpreted operation applied to row j of the non-constant inputs with constants and keyword arguments unchanged and '
             'meta[index_in_batch] = j; ValueError iff two lengths disagree. vectorize, unpack_meta (explicit kwargs win, for every meta key set), '
@@ -25,7 +25,7 @@ MANIFEST = {
             'external_operation (option plumbing) are verified on their real bodies with recording stubs for str.format / subprocess / '
             'np.fromstring / functools.partial. A bounded grid on the real code (native numpy, real echo subprocesses, a model run with '
             'batch_size > 1) is the labelled stand-in and replay vehicle.',
-    'note': 'Bound of the proof: arity <= 3 (batch length, values, lengths of constants unbounded). Assumed: the operation is pure and returns '
+    'note': 'Bound of the proof: concrete arity <= 4 exhaustively, four words of arity 5 (batch length, values, lengths of constants unbounded). Assumed: the operation is pure and returns '
             'outputs numpy can stack; np.array(list, dtype) is item-wise; str.format / subprocess.run / np.fromstring / functools.partial / '
             'RandomState.get_state library contracts (each sanity-tested per run); get_sub_seed by its C15 contract; positional placeholders of '
             'the command refer to available inputs (IndexError of str.format not modelled).',
@@ -44,7 +44,7 @@ I, Bz = z3.IntSort(), z3.BoolSort()
 Val = z3.DeclareSort('Val')          # any python object whose only observable here is its identity
 Key = z3.DeclareSort('Key')          # dict keys (strings)
 
-OP = {k: z3.Function('op%d' % k, *([Val] * k + [Val, Bz, Val, Bz, I, Val])) for k in range(0, 5)}
+OP = {k: z3.Function('op%d' % k, *([Val] * k + [Val, Bz, Val, Bz, I, Val])) for k in range(0, 7)}
 ITEM = z3.Function('np_array_item', Val, Val, Val)
 OOB = z3.Function('out_of_range_item', I, Val)
 STDOUT_OF = z3.Function('stdout_of', Val, Val)
@@ -1242,7 +1242,20 @@ class ExternalOperation(Contract):
         return out
 
 
-CONTRACTS = [RunVectorized(k) for k in _all_kinds()] + [RunVectorized('A', empty_constants=True), RunVectorized('SA', empty_constants=True)] + \
+def _arity4(kinds, quick):
+    c = RunVectorized(kinds)
+    if not quick:
+        c.tiers = ('thorough',)
+    return c
+
+
+# arity 4: every kind mask in the thorough tier, a fixed spread of 8 masks (every kind in every position at least once)
+# in the quick tier; arity 5: four words in the thorough tier, two of them in the quick tier.  The proof is per concrete arity (python *args).
+_QUICK4 = ['AAAA', 'ACSZ', 'ZSCA', 'CASZ', 'SZAC', 'CACA', 'SAAZ', 'ZCCA']
+_ARITY4 = [_arity4(''.join(p), ''.join(p) in _QUICK4) for p in __import__('itertools').product('ACSZ', repeat=4)]
+_ARITY5 = [_arity4(k, k in ('ACSZA', 'ZSCAC')) for k in ('AAAAA', 'ACSZA', 'ZSCAC', 'SAZCA')]
+
+CONTRACTS = [RunVectorized(k) for k in _all_kinds()] + _ARITY4 + _ARITY5 + [RunVectorized('A', empty_constants=True), RunVectorized('SA', empty_constants=True)] + \
     [Vectorize(), UnpackMeta('symbolic-meta'), UnpackMeta('concrete-meta'), UnpackMeta('no-meta'),
      PrepareSeed('rs+index'), PrepareSeed('rs+index=None'), PrepareSeed('rs'), PrepareSeed('no-rs'), LemmaRows(), LemmaState(), StdoutToArray(),
      RunExternal(True, True), RunExternal(True, False), RunExternal(False, True), RunExternal(False, False),
@@ -1259,8 +1272,8 @@ ASSUMPTIONS = ['the vectorised operation is pure (its result is a function of it
                'the outputs of the operation have one common shape when dtype is not False (numpy raises for ragged lists otherwise)',
                'A-INT: integers are mathematical; index_in_batch < 2**31 (precondition of get_sub_seed)',
                'command templates refer only to available positional inputs (IndexError of str.format is not modelled)',
-               'run_vectorized proof is per concrete arity 0..3 (all kind masks); larger arities are not covered by the proof']
-NOT_PROVED = ['for all arities (arity > 3 is neither proved nor bounded-tested)',
+               'run_vectorized proof is per concrete arity 0..4 (all kind masks; arity 4 exhaustively only in the thorough tier) and four kind words of arity 5; larger arities are covered by the bounded sample (arity 4-6) only']
+NOT_PROVED = ['for all arities: proved per concrete arity 0..4 and for four kind words of arity 5 (python *args has no symbolic arity in the engine); arity 5-6 otherwise bounded (sampled kind words), arity > 6 neither',
               'parses its standard output into an array of the requested type (np.fromstring itself is an assumed library contract; only the plumbing of dtype/sep is proved)']
 
 
